@@ -35,6 +35,7 @@
 (*   "resume_after_close_brace"  the catalogue-string tokeniser, on a "{"    *)
 (*                         that does not open a placeholder, resumes after *)
 (*                         the next "}" instead of after the "{"           *)
+(*   "plural_by_magnitude" the plural form is selected for |n|             *)
 (*   "builtin_rule_wins"   the plural form is selected by the built-in     *)
 (*                         rule of the catalogue's locale instead of the   *)
 (*                         rule its Plural-Forms header declares           *)
@@ -109,13 +110,16 @@ POPluralForms(loc) ==
     [] loc = "ru" -> "nplurals=3; plural=(n%10==1 && n%100!=11 ? 0 : n%10>=2 && n%10<=4 && (n%100<10 || n%100>=20) ? 1 : 2);"
     [] loc = "cs" -> "nplurals=3; plural=(n==1) ? 0 : (n>=2 && n<=4) ? 1 : 2;"
 
-\* index of the plural form for n >= 0
+\* index of the plural form: the Plural-Forms expression evaluated on the count
+\* AS IT IS, for every integer (% is C's: the sign of the dividend; so under
+\* the ru rule a negative count is never "one" or "few")
 POPluralIndex(loc, n) ==
   CASE loc = "ja" -> 0
     [] loc = "en" -> IF n # 1 THEN 1 ELSE 0
     [] loc = "fr" -> IF n > 1 THEN 1 ELSE 0
-    [] loc = "ru" -> IF n % 10 = 1 /\ n % 100 # 11 THEN 0
-                     ELSE IF n % 10 >= 2 /\ n % 10 <= 4 /\ (n % 100 < 10 \/ n % 100 >= 20) THEN 1
+    [] loc = "ru" -> LET u == TruncMod(n, 10) h == TruncMod(n, 100) IN
+                     IF u = 1 /\ h # 11 THEN 0
+                     ELSE IF u >= 2 /\ u <= 4 /\ (h < 10 \/ h >= 20) THEN 1
                      ELSE 2
     [] loc = "cs" -> IF n = 1 THEN 0 ELSE IF n >= 2 /\ n <= 4 THEN 1 ELSE 2
 
@@ -288,8 +292,8 @@ PORender(body, cm, loc, env) ==
   ELSE LET n == POSubject(body[1], env) IN
        IF IsBad(n) THEN n
        ELSE IF n.t # "int" THEN Err
-       ELSE IF n.v < 0 THEN Unspec
-       ELSE LET ix == POPluralIndex(loc, n.v) + (IF "plural_index_shift" \in PODev THEN 1 ELSE 0) IN
+       ELSE LET cnt == IF "plural_by_magnitude" \in PODev THEN Abs(n.v) ELSE n.v
+                ix == POPluralIndex(loc, cnt) + (IF "plural_index_shift" \in PODev THEN 1 ELSE 0) IN
             IF ix + 1 > Len(cm.forms) THEN Err
             ELSE PORenderParts(phs, cm.forms[ix + 1], env, 0)
 
@@ -332,7 +336,6 @@ POExpected(body, strategy, loc, env) ==
   ELSE LET n == POSubject(body[1], env) IN
        IF IsBad(n) THEN n
        ELSE IF n.t # "int" THEN Err
-       ELSE IF n.v < 0 THEN Unspec
        ELSE LET i == POPluralIndex(loc, n.v)
                 segs == POSegments(POMergeText(POFormBody(body, loc, i)), env) IN
             POCat(POOut(POMark(loc, i)), POCatAll(IF strategy = "rev" THEN POReverse(segs) ELSE segs))
@@ -413,7 +416,10 @@ POFamInvalid ==
 \* extra messages: placeholders over globals
 POExtraBodies == <<
   << MText("Hi "), MPrint(MsgGlobal("GLOB")), MText("!") >>,
-  << MPrint(MsgGlobal("app.glob")), MText(" and "), MPrint(MsgVar("y")) >>
+  << MPrint(MsgGlobal("app.glob")), MText(" and "), MPrint(MsgVar("y")) >>,
+  \* injected data inside a message (same base name as a parameter's)
+  << MText("Welcome to "), MPrint(MsgRef("ij", <<MsgKeyAcc("who")>>)), MText(", "), MPrint(MsgVar("y")), MText("!") >>,
+  << MPrint(MsgRef("ij", <<MsgKeyAcc("y")>>)), MText(" / "), MPrint(MsgVar("y")), MText(" / "), MPrint(MsgRef("ij", <<MsgKeyAcc("y")>>)) >>
 >>
 POFamExtra == {[kind |-> "extra", i |-> i] : i \in 1..Len(POExtraBodies)}
 
@@ -444,7 +450,9 @@ POShardOf(d, nshards) ==
 \* data
 POEnv(n) ==
   [vars |-> [a |-> M([y |-> S("ay")]), b |-> M([y |-> S("by")]), y |-> S("yv"), y_1 |-> S("y1v"), n |-> I(n)],
-   ij |-> NoIJ, glob |-> [g \in {"GLOB", "app.glob"} |-> S("gv")]]
+   ij |-> M([who |-> S("iv"), y |-> S("ijy")]), glob |-> [g \in {"GLOB", "app.glob"} |-> S("gv")]]
 
-PONs == <<0, 1, 2, 3, 5, 11, 21, 22, 101>>
+\* counts: the boundaries of the rules, negative ones, a large one (TLC's
+\* integers are 32 bit; $n + 1 must stay below 2^30)
+PONs == <<0, 1, 2, 3, 5, 11, 21, 22, 101, -1, -2, -7, -11, 1000000021>>
 =============================================================================
